@@ -64,6 +64,62 @@ CLAIMED = {
                  'Coq proof over Qc + vm_compute correspondence of the level sources', 'C14'),
 }
 
+
+CLAIMED.update({
+    'C02': claim('Theorems (Properties/C02.v): order-independence of every pattern of map iteration the code uses (per-key assignment, per-key accumulation without associativity, '
+                 'collect-then-sort, merge with collision check, Choquet ties) with the instances for the model (cumulated weights, averages, key normalisation, criteria ranking); '
+                 'obligations against files regenerated from the source on every run: every `range` over a map is classified under one of these patterns, and nothing calls time.* '
+                 'or package-level math/rand. Tie: every request is sent to the real service again in the same process, after other requests and to fresh processes and must be '
+                 'answered byte-identically; full correspondence model/service.',
+                 'partial for the runtime part: scheduler, clock and process state are checked by repetition and by the regenerated symbol scan, not proved.',
+                 'Coq proof of map-order independence + regenerated inventory obligation + repetition across processes', 'C02'),
+    'C07': claim('Theorems (Properties/C07.v): every bias maps coherent working data to coherent working data (every alternative has every current criterion, parameters cover them), lifted '
+                 'to every bias sequence and to the state the method is evaluated on; frame: only what is reported changes; alternatives and their split never change. Tie: every '
+                 'traced bias application of the real code is compared with the model step (state and report), and inv / frame are evaluated on the real states; a combination that '
+                 'fails in the code while the model succeeds is reported with its request.',
+                 'inv after a criterion-adding bias needs the parameter object to know the same criteria as the state (sync), established by prepare and preserved; totality '
+                 '(no error for valid properties) is decided by correspondence, not proved.',
+                 'Coq invariant proof over bias sequences + per-stage correspondence on traced Go runs', 'C07'),
+    'C08': claim('Theorems (Properties/C08.v): one echo per enabled bias in order with name and probability; disabled = absent (even unknown names); position i fires iff its '
+                 'probability exceeds the i-th draw, independently of all other entries, monotonically; 1 always, 0 never; unfired = state unchanged, props null; exact frequency '
+                 'ceil(p 2^53) on the Float64 grid. Tie: echo checker against the seed stream of the Go generator; metamorphic: insert disabled bias, replace all other biases, set p to 0/1.',
+                 'uniformity of math/rand on its 2^53 grid is an assumption; the only exception (criteria mixing with fewer than two criteria fires and reports nothing) is part of the statement.',
+                 'Coq proof of the firing rule + echo checker and metamorphic runs on Go outputs', 'C08'),
+    'C09': claim('Theorems (Properties/C09.v): a bias sequence is a prefix followed by the rest from the state handed on; the report of a bias is fixed by the biases up to it; fatigue, '
+                 'reversal, omission report exactly what they hand on. Tie (the part about Go\'s heap): traced runs dump every state and report at return and again after the whole '
+                 'decision; request values deep-compared before/after; histories of calls re-using the same decoded Go values with every earlier result deep-compared after every later call.',
+                 'partial: absence of hidden state / aliasing in the Go program is established by the history correspondence on the sampled histories, not proved.',
+                 'Coq proof of report stability + history correspondence with deep comparisons', 'C09'),
+    'C10': claim('Theorems (Properties/C10.v): in the effect model, threads that never write shared locations nor touch another thread\'s private ones end, under every interleaving, in '
+                 'the state they reach alone, return the same result, and no two accesses conflict (race freedom); obligation against the write summary regenerated from the source: '
+                 'only receivers of per-request objects are written, factories return fresh objects, no goroutines. Tie: batches of 2-32 concurrent requests against the real '
+                 'registries, compared with the sequential answers, also on a race-detector build.',
+                 'partial: soundness of the syntactic write summary (unresolved pointer aliases are not flagged), the Go memory model, gin and the runtime are not verified.',
+                 'Coq noninterference theorem + regenerated write-summary obligation + concurrent runs with race detector', 'C10'),
+    'C15': claim('Theorems (Properties/C15.v, exact rationals): k = clamp(floor(n ratio)); omitted = first k of the ordering; all five orderings are permutations; weakest/strongest soundness w.r.t. '
+                 'the listener\'s importance; strongest = rev weakest; first-pick interval of weakestByProbability decreasing in importance; omission_passes_checker. Tie: per-stage '
+                 'correspondence + checker on traced omissions, and the decision is compared with the decision for the request with the omitted criteria deleted.',
+                 'equivalence with the reduced request is checked on the code (exact equality), proved only as state restriction.',
+                 'Coq proof over Qc + per-stage correspondence and reduced-request comparison', 'C15'),
+    'C16': claim('Theorems (Properties/C16.v, exact rationals): v -> max + min - v for every known alternative on every selected criterion with the declared / currently observed range; frame; '
+                 'range preserved; involution; reversal_passes_checker. Tie: per-stage correspondence + checker on traced reversals (all orderings, with and without declared ranges, '
+                 'considered = / subset of known, after other biases).', 'pairwise distinct alternative and criterion ids.',
+                 'Coq proof over Qc + per-stage correspondence on traced Go runs', 'C16'),
+    'C17': claim('Theorems (Properties/C17.v, exact rationals): |v\' - v| <= |f v| for every stream; f = 0 identity; both signs; bounding = raise to 0 then clip into the centred scaled range, '
+                 'monotone; frame and faithful report; fatigue_passes_checker. Tie: per-stage correspondence (value and sign streams of the Go generator, math.Exp as oracle) + checker.',
+                 'draws in [0,1); exp taken from Go.', 'Coq proof over Qc + per-stage correspondence on traced Go runs', 'C17'),
+    'C19': claim('Theorems (Properties/C19.v, exact rationals): reference point = coefficient-weighted best/worst per criterion; mapped differences; inline value and reported difference; '
+                 'not-considered only if asked; zero functions identity; new-criterion value with normalised weights; anchoring_passes_checker for both appliers. Tie: per-stage '
+                 'correspondence (exp oracle) + checker on traced anchoring applications.', 'positive coefficients (a zero coefficient is outside the domain, witness in Proofs/AnchoringFacts.v).',
+                 'Coq proof over Qc + per-stage correspondence on traced Go runs', 'C19'),
+    'C20': claim('Theorems (Properties/C20.v): decide is total (ranking with echoes, or rejection); one rejection lemma per documented constraint (31), incl. fired biases with bad '
+                 'properties; termination of ELECTRE distillation under the validated domain is in C05. Tie: the unmodified service under a memory limit: valid stream, every documented '
+                 'constraint violated one at a time (must be 400 with error + echoed request, names listed), malformed / mistyped / extreme bodies, liveness after every request, 15 s deadline; '
+                 'accept/reject correspondence with the model.',
+                 'partial: JSON binding, recover(), stack and memory limits are runtime behaviour exercised by the server runs, not modelled; resource exhaustion by sheer size is outside.',
+                 'Coq rejection lemmas + fault/fuzz runs against the real HTTP service', 'C20'),
+})
+
 PENDING_REASON = 'not claimed yet: model, theorems and correspondence for this property are still being built (see DESIGN.md §9 order of work); no check is registered until it is sound'
 
 ALL = ['C%02d' % i for i in range(1, 21)]
